@@ -555,6 +555,49 @@ def pair_order(inst, order, rng):
     return pairs
 
 
+FREE_IDX = ["int64", "list", "tuple", "intp"]          # all reach the jitted kernels as C-contiguous int64
+FREE_DENSE_SA = ["float64", "list"]                     # C-contiguous float64
+FREE_DENSE_PROD = ["float64", "list", "F-order", "non-contiguous"]   # fancy indexing normalises the layout
+
+
+def quick_signature_choice(seed):
+    """quick tier: which of the dtype / layout signatures that reach Numba kernels are drawn this run (every new
+    signature costs a compilation on a cold cache); rotated by the seed so that all of them are met over time.
+    The thorough tier (and every run after an anchored file changed) uses all of them."""
+    return {"unsigned": ["uint8", "uint16", "uint32", "uint64"][seed % 4],
+            "other_idx": ["int8", "int16", "int32", "strided"][(seed // 4 + seed) % 4],
+            "dense": ["float32", "F-order", "non-contiguous", "int-if-possible"][(seed // 2 + seed) % 4],
+            "beta": ["np.float32", "0-d array"][(seed // 3 + seed) % 2],
+            "np.int32": seed % 3 == 0}
+
+
+def restrict_sa(choice, c, ctr):
+    """map a full-cross combination to one whose jitted signature is drawn this run; at most one of
+    (index dtype, data kind, beta kind, integer kind) deviates from the baseline at a time"""
+    c = dict(c)
+    special_idx = (choice["unsigned"], choice["other_idx"])
+    if c["ikind"] in special_idx:
+        c["akind"] = c["ikind"]
+        c["rk"] = FREE_DENSE_SA[ctr % 2]
+        if c["qk"] is not None:
+            c["qk"] = FREE_DENSE_SA[(ctr // 2) % 2]
+        c["bkind"] = ["float", "np.float64"][ctr % 2]
+        c["special_int"] = False
+        return c
+    if c["ikind"] not in FREE_IDX:
+        c["ikind"] = FREE_IDX[ctr % len(FREE_IDX)]
+    c["akind"] = FREE_IDX[(ctr // 3) % len(FREE_IDX)]
+    slot = ctr % 4
+    want_dense = (slot == 1 and c["qk"] is not None)
+    c["rk"] = choice["dense"] if want_dense else FREE_DENSE_SA[ctr % 2]
+    if c["qk"] is not None:
+        c["qk"] = choice["dense"] if want_dense else FREE_DENSE_SA[(ctr // 2) % 2]
+    c["bkind"] = choice["beta"] if slot == 2 else ["float", "np.float64"][ctr % 2]
+    c["special_int"] = (slot == 3 and choice["np.int32"])
+    return c
+
+
+
 def argument_forms(ctx):
     """every legal way of handing the same problem to DiscreteDP / solve must give a correct answer"""
     from quantecon.markov import DiscreteDP
@@ -562,6 +605,9 @@ def argument_forms(ctx):
     ninst = ctx.n(5, 40)
     combo = 0
     dense_ctr = [0]
+    choice = quick_signature_choice(ctx.seed)
+    if not ctx.thorough:
+        ctx.extra["quick_jit_signatures"] = choice
     for it in range(ninst):
         inst = gen_instance(rng, 4, 3, True)
         if inst.n < 2 and it % 3:
@@ -572,30 +618,36 @@ def argument_forms(ctx):
         eps = rng.choice([0.5, 0.125, 2.0 ** -6])
         v_init = None if rng.random() < 0.5 else [rng.randint(-4, 4) for _ in range(n)]
         k = rng.choice([0, 1, 5])
-        for ikind in INDEX_KINDS:
+        for ikind0 in INDEX_KINDS:
             for order in ORDERS:
                 combo += 1
-                akind = INDEX_KINDS[(combo * 5 + 3) % len(INDEX_KINDS)] if combo % 2 else ikind
+                sparse = (combo % 3 == 0)
+                if not sparse:
+                    dense_ctr[0] += 1
+                c = {"ikind": ikind0,
+                     "akind": INDEX_KINDS[(combo * 5 + 3) % len(INDEX_KINDS)] if combo % 2 else ikind0,
+                     "rk": DENSE_KINDS[(combo // 2) % len(DENSE_KINDS)],
+                     "qk": None if sparse else DENSE_KINDS[dense_ctr[0] % len(DENSE_KINDS)],
+                     "bkind": ["float", "np.float64", "np.float32", "0-d array"][combo % 4],
+                     "special_int": True}
+                if not ctx.thorough:
+                    c = restrict_sa(choice, c, combo)
+                ikind, akind, rk, bkind = c["ikind"], c["akind"], c["rk"], c["bkind"]
                 pairs = pair_order(inst, order, rng)
                 s_idx = as_index([p[0] for p in pairs], ikind)
                 a_idx = as_index([p[1] for p in pairs], akind)
                 Rl = np.array([float(inst.R[s][a]) for s, a in pairs])
                 Ql = np.array([[float(q) for q in inst.Q[s][a]] for s, a in pairs]).reshape(len(pairs), n)
-                sparse = (combo % 3 == 0)
                 if sparse:
                     fmt, idt = SPARSE_KINDS[combo % len(SPARSE_KINDS)]
                     Qarg = as_sparse(Ql, fmt, idt)
                     qdesc = "sparse:%s:%s" % (fmt, idt)
                 else:
-                    dense_ctr[0] += 1
-                    qk = DENSE_KINDS[dense_ctr[0] % len(DENSE_KINDS)]
-                    Qarg = as_dense(Ql, qk, rng)
-                    qdesc = "dense:" + qk
-                rk = DENSE_KINDS[(combo // 2) % len(DENSE_KINDS)]
+                    Qarg = as_dense(Ql, c["qk"], rng)
+                    qdesc = "dense:" + c["qk"]
                 Rarg = as_dense(Rl, rk, rng)
-                bkind = ["float", "np.float64", "np.float32", "0-d array"][combo % 4]
                 beta_arg = scalar_form(inst.beta, bkind)
-                if inst.beta == 0.0 and combo % 5 == 0:
+                if inst.beta == 0.0 and combo % 5 == 0 and (ctx.thorough or bkind in ("float", "np.float64")):
                     beta_arg, bkind = 0, "int"
                 desc = {"stream": "forms", "formulation": "sa", "s_indices": ikind, "a_indices": akind, "order": order,
                         "Q": qdesc, "R": rk, "beta_form": bkind, "beta": inst.beta,
@@ -611,7 +663,7 @@ def argument_forms(ctx):
                     ctx.spec_fail("forms_constructor_refuses_legal_input",
                                   "DiscreteDP raised %s: %s" % (type(e).__name__, str(e)[:200]), desc)
                     continue
-                solve_forms(ctx, inst, vstar, ddp, desc, combo, eps, v_init, k, sparse)
+                solve_forms(ctx, inst, vstar, ddp, desc, combo, eps, v_init, k, sparse, c["special_int"])
         # product form in the various array forms
         Rn = np.array([[(-np.inf if x is None else float(x)) for x in row] for row in inst.R]).reshape(n, m)
         Qn = np.array([[[float(q) for q in inst.Q[s][a]] for a in range(m)] for s in range(n)]).reshape(n, m, n)
@@ -619,6 +671,17 @@ def argument_forms(ctx):
             combo += 1
             qk = DENSE_KINDS[combo % len(DENSE_KINDS)]
             bkind = ["float", "np.float64", "np.float32", "0-d array"][combo % 4]
+            special_int = True
+            if not ctx.thorough:
+                # (the LP method converts to pairs: R / Q dtypes other than float64 reach the jitted LP kernel)
+                special_int = False
+                bkind = ["float", "np.float64"][combo % 2]
+                if rk == choice["dense"] or (rk not in FREE_DENSE_PROD and choice["dense"] in FREE_DENSE_PROD):
+                    rk = qk = choice["dense"]
+                else:
+                    if rk not in FREE_DENSE_PROD:
+                        rk = FREE_DENSE_PROD[combo % 4]
+                    qk = FREE_DENSE_PROD[(combo // 2) % 4]
             desc = {"stream": "forms", "formulation": "product", "R": rk, "Q": qk, "beta_form": bkind, "beta": inst.beta,
                     "R_prod": [[None if x is None else int(x) for x in row] for row in inst.R],
                     "Q_prod": [[[str(q) for q in inst.Q[s][a]] for a in range(m)] for s in range(n)]}
@@ -629,14 +692,16 @@ def argument_forms(ctx):
                 ctx.spec_fail("forms_constructor_refuses_legal_input",
                               "DiscreteDP raised %s: %s" % (type(e).__name__, str(e)[:200]), desc)
                 continue
-            solve_forms(ctx, inst, vstar, ddp, desc, combo, eps, v_init, k, False)
+            solve_forms(ctx, inst, vstar, ddp, desc, combo, eps, v_init, k, False, special_int)
 
 
-def solve_forms(ctx, inst, vstar, ddp, desc, combo, eps, v_init, k, sparse):
+def solve_forms(ctx, inst, vstar, ddp, desc, combo, eps, v_init, k, sparse, special_int=True):
     vk = ["float64", "list", "tuple", "float32", "int64", "strided"][combo % 6]
     ek = ["float", "np.float64", "np.float32"][combo % 3]
     ik = ["int", "np.int64", "np.int32", "np.intp"][combo % 4]
-    max_iter = None if combo % 4 else 400
+    if ik == "np.int32" and not special_int:
+        ik = "np.intp"
+    max_iter = None if combo % 3 else 400
     for method in ("vi", "pi", "mpi", "lp"):
         if method == "lp" and sparse:
             continue
